@@ -277,7 +277,7 @@ def _execute(sc, sim, out):
         else:
             src = env.SimReader(sim, text)
         return pipe.call(pipe.fit, src, names, ap, d, outp, n_data_min=1, output_format=('A', 0), extinction_law=W.extinction(),
-                         av_range=list(sc['av_range']), distance_range=list(sc['drange']) * pipe.u.kpc)
+                         av_range=list(sc['av_range']), distance_range=(list(sc['drange']) * pipe.u.kpc).to(pipe.u.Unit(spec.get('d_unit', 'kpc'))))
     if sc['fit_crash'] is not None:
         side = run_fit()
         if side[0] == 'ok':
@@ -365,7 +365,7 @@ def _execute(sc, sim, out):
     if not out.violations and sc.get('object_route'):
         from ..author import prelude_spec
         rf = pipe.call(pipe.Fitter, names, ap, d, extinction_law=W.extinction(), av_range=list(sc['av_range']),
-                       distance_range=list(sc['drange']) * pipe.u.kpc)
+                       distance_range=(list(sc['drange']) * pipe.u.kpc).to(pipe.u.Unit(spec.get('d_unit', 'kpc'))))
         infos = []
         intr = None
         if rf[0] == 'ok' and sc.get('intruder'):
@@ -373,7 +373,7 @@ def _execute(sc, sim, out):
             di = Wi.write(sim.path('other_pkg'))
             if pipe.call(pipe.convolve_model_dir, di, Wi.filters())[0] == 'ok':
                 ri = pipe.call(pipe.Fitter, names, ap, di, extinction_law=Wi.extinction(), av_range=list(sc['av_range']),
-                               distance_range=list(sc['drange']) * pipe.u.kpc, remove_resolved=Wi.apdep)
+                               distance_range=(list(sc['drange']) * pipe.u.kpc).to(pipe.u.Unit(spec.get('d_unit', 'kpc'))), remove_resolved=Wi.apdep)
                 if ri[0] == 'ok':
                     intr = ri[1]              # alive from now on
         if rf[0] == 'ok':
